@@ -4,6 +4,7 @@
 //!   case <id> / spec d m s dd ms slf / <op lines> / end
 //! Output: `case <id>`, then `O <kind> <nrows> {<len> i...}* F <nf> f...`, then `end`.
 mod obs;
+mod api;
 mod hist;
 mod graphml;
 use std::io::{BufRead, Write};
@@ -38,6 +39,7 @@ fn main() {
                 let mut o = obs::Out::new();
                 match mode {
                     "hist" => hist::run_case(&cur, &mut o),
+                    "api" => api::run_case(&cur, &mut o),
                     "graphml" => graphml::run_case(&cur, &mut o),
                     _ => {
                         eprintln!("unknown mode {}", mode);
